@@ -5,6 +5,7 @@
 #pragma once
 #include "gen.hpp"
 #include <complex>
+#include <functional>
 
 namespace vf {
 
@@ -88,9 +89,18 @@ struct CallSpec { SolverCfg cfg; size_t maxiter = 100; int L = 2; double tol = 1
 //   that amplifies (e.g. a Chebyshev smoother on a strongly non-symmetric matrix, observed gain 1e10) makes the call ill-conditioned
 //   whatever kappa(A) is, and the bounds scale with it (such calls are counted, see calls_with_preconditioner_norm_above_10x_inverse_norm).
 //   A non-finite reported value is truthful iff the true value is non-finite as well.
+//   A-posteriori conditioning (only evaluated when the bounds above are exceeded, i.e. on suspects): the same call is repeated on a fresh object with the
+//   right-hand side perturbed entry-wise by relative eps = 1e3 u; D = || v(f') - v(f) || / ||f|| with v the true (preconditioned) residual vector of the
+//   returned iterate.  Rounding acts like relative perturbations of size u in each of the k iterations, so to first order the reported value may be off
+//   by k (u / eps) D; allowed: 10 k (u / eps) D.  This measures the conditioning of the *whole call* (operator A P or P A, iterates in range(P)), which
+//   ||A||, ||A^-1|| and a norm estimate of P cannot bound when P is nearly singular in some directions (Chebyshev smoothing of a strongly
+//   non-symmetric matrix: BiCGStab(L) drifted by 5e-7 ||f|| in 4 iterations while kappa(A) = 90).  A mis-reporting solver is not helped by it: its
+//   error does not shrink with the perturbation size.
+template <class S> using Rerun = std::function<bool(const std::vector<S> &f2, std::vector<S> &x2)>;
+
 template <class S, class ApplyP>
 bool check_truthful(Case &c, const CallSpec &cs, const Csr<S> &A, const std::vector<S> &f, const std::vector<S> &x0, const std::vector<S> &x,
-                    size_t iters, double res, const Cond &K, ApplyP applyP, const std::string &tag, double *out_true = nullptr) {
+                    size_t iters, double res, const Cond &K, ApplyP applyP, const std::string &tag, double *out_true = nullptr, Rerun<S> rerun = Rerun<S>()) {
     const std::string name = cfg_name(cs.cfg) + tag; bool ok = true;
     const double u = unit_roundoff<S>::get();
     // (b) iteration bound -- exact integer comparison
@@ -111,6 +121,12 @@ bool check_truthful(Case &c, const CallSpec &cs, const Csr<S> &A, const std::vec
         return ok;
     }
     if (!tfinite) { c.check(false, name + ":finite-report-for-nonfinite-residual", "solver reported a finite residual but the returned x has a non-finite true residual", J().n("reported", res).n("iters", iters)); return false; }
+    // Scope of the recursive-residual and left-side clauses: the preconditioner approximates A^-1.  A P whose probe gain exceeds 10 ||A^-1|| amplifies
+    // (observed: Chebyshev smoothing of strongly non-symmetric convection-diffusion matrices, gains 1e3 .. 2e11 against ||A^-1|| = 3..7): its own
+    // evaluation is numerically unstable and the iterates blow up transiently, so neither kappa(A) nor any norm of P bounds the gap between the
+    // recursively updated and the true residual (BiCGStab(L) evaluates P once more on exit; Greenbaum's bound scales with max_j ||x_j||).  Such calls
+    // are counted and only held to the iteration bound, the non-finite rule and -- explicit right-side residuals -- the forward bound below.
+    if (K.normP > 10 * K.normAinv && (cs.cfg.left || !cs.cfg.explicit_res)) { obs_sum("checks_skipped_amplifying_preconditioner"); return ok; }
     if (!std::isfinite(K.kappa_call()) && (cs.cfg.left || !cs.cfg.explicit_res)) { obs_sum("checks_skipped_nonfinite_preconditioner_probe"); return ok; }   // P itself overflows / is NaN: no bound exists
     long double nx0 = norm2_ld(x0);
     long double dr = 8.0L * u * (R.maxrow + 3) * (R.absAx + R.nf);
@@ -124,6 +140,19 @@ bool check_truthful(Case &c, const CallSpec &cs, const Csr<S> &A, const std::vec
     if (!cs.cfg.explicit_res && !(100.0L * u * (iters + 1) * K.kappa_call() < 1e-3L)) { obs_sum("recursive_checks_skipped_ill_conditioned_call"); return ok; }
     long double bound = std::max(rel * tv, flo), diff = fabsl((long double)res - tv);
     if (!(std::isfinite((double)bound))) { fprintf(stderr, "c01 oracle: non-finite bound (kappa=%g)\n", K.kappa()); exit(3); }
+    if (!(diff <= bound) && rerun) {
+        typedef typename ldtype<S>::real Rl; const double eps = 1e3 * u; Rng pr(hash_str(name, (uint64_t)A.n * 1315423911ULL + iters));
+        std::vector<S> f2 = f, x2 = x0; for (auto &e : f2) e = e * S((typename std::conditional<std::is_same<Rl, long double>::value, double, double>::type)(1 + eps * pr.uni(-1, 1)));
+        obs_sum("sensitivity_probes");
+        if (rerun(f2, x2)) {
+            Residual<S> R2 = residual_ld(A, f2, x2); std::vector<S> v1 = R.r, v2 = R2.r;
+            if (cs.cfg.left && R2.finite) { std::vector<S> z1(A.n, S()), z2(A.n, S()); applyP(R.r, z1); applyP(R2.r, z2); v1 = z1; v2 = z2; }
+            long double d = 0; for (size_t i = 0; i < A.n; ++i) d += abs2_ld(to_ld(v2[i]) - to_ld(v1[i])); d = std::sqrt(d) / R.nf;
+            long double fs = 10.0L * (iters + 1) * (u / eps) * d;
+            if (std::isfinite((double)fs) && fs > bound) { bound = fs; obs_sum("sensitivity_floor_decided"); }
+            else if (!std::isfinite((double)fs)) { obs_sum("sensitivity_floor_decided"); return ok; }     // perturbed call overflowed / went NaN: chaotic call, no bound
+        }
+    }
     obs_max(std::string("max_mismatch_over_bound_") + (cs.cfg.explicit_res ? "explicit" : "recursive") + (cs.cfg.left ? "_left" : "_right"), (double)(diff / bound));
     if (tv > 0) obs_max("max_rel_discrepancy_where_true_above_1e-6", tv > 1e-6L ? (double)(diff / tv) : 0.0);
     ok &= c.check(diff <= bound, name + ":residual-mismatch", "reported residual differs from the true relative residual of the returned x beyond the rounding bound",
